@@ -179,6 +179,10 @@ def _arg(m, name):
     return setup.ALT.get(m, {}).get(name, name)
 
 
+DECOS = {}
+DECO_LOCK = threading.Lock()
+
+
 class Actor:
     """One model thread. `serve()` runs in the real thread and executes commands one at a time."""
 
@@ -230,15 +234,34 @@ class Actor:
             if op == "Enter":
                 entered = False
                 r = None
+                box = {}
+
+                def body():
+                    box["entered"] = True
+                    self.outbox.put(("ok", ""))
+                    box["r"] = self.level(depth + 1)
+                    if box["r"] == "exception":
+                        raise _Boom()
+                    if box["r"] == "base_exception":
+                        raise _Halt()
                 try:
-                    with mgr.backend_context(_arg(cmd["m"], cmd["name"]), local_threadsafe=cmd["loc"]):
-                        entered = True
-                        self.outbox.put(("ok", ""))
-                        r = self.level(depth + 1)
-                        if r == "exception":
-                            raise _Boom()
-                        if r == "base_exception":
-                            raise _Halt()
+                    if cmd.get("form") == "deco":
+                        # the context object used as a decorator: ONE object per (manager, backend, flavour), created once and
+                        # shared by all threads and all (nested) activations, as `@tl.backend_context(...)` on a function is
+                        key = (cmd["m"], cmd["name"], cmd["loc"])
+                        with DECO_LOCK:
+                            if key not in DECOS:
+                                DECOS[key] = mgr.backend_context(_arg(cmd["m"], cmd["name"]), local_threadsafe=cmd["loc"])
+                        try:
+                            DECOS[key](body)()
+                        finally:
+                            entered, r = box.get("entered", False), box.get("r")
+                    else:
+                        try:
+                            with mgr.backend_context(_arg(cmd["m"], cmd["name"]), local_threadsafe=cmd["loc"]):
+                                body()
+                        finally:
+                            entered, r = box.get("entered", False), box.get("r")
                     res = ("ok", "")
                 except (_Boom, _Halt):
                     res = ("ok", "")
@@ -342,6 +365,8 @@ def main():
             e = {"id": "%s/%d" % (tid, k + 1), "tr": tid, "ev": op["ev"], "t": op["t"], "m": op.get("m", "be"),
                  "name": op.get("name", "none"), "loc": bool(op.get("loc", False)), "how": op.get("how", "normal"),
                  "out": outcome, "exc": exc, "obs": obs}
+            if op["ev"] == "Enter":
+                e["form"] = op.get("form", "with")
             emit(e)
             if outcome == "raised" and op["ev"] == "Exit":
                 break   # state of the real system is no longer tracked by the schedule
